@@ -259,3 +259,17 @@ func pathToExit(fn *ssa.Function, from ssa.Instruction, e exitAlt, avoid func(ss
 	defer func() { pathEdgeFilter = old }()
 	return pathAvoiding(fn, from, func(in ssa.Instruction) bool { return in == ssa.Instruction(e.Ret) }, avoid)
 }
+
+
+// dominatingHeader: the nearest loop header that dominates b — also for blocks
+// that leave the loop (return inside the body), which loopHeaderOf excludes.
+func dominatingHeader(b *ssa.BasicBlock) *ssa.BasicBlock {
+	for h := b; h != nil; h = h.Idom() {
+		for _, p := range h.Preds {
+			if h.Dominates(p) {
+				return h
+			}
+		}
+	}
+	return nil
+}
